@@ -268,8 +268,8 @@ def check_sym(case):
 
 
 SUBCHECKS = [
-    SubCheck("rows_vs_1d", check_rows, strategy=strat_rows, examples={"quick": 400, "thorough": 2500}, shards={"quick": 4, "thorough": 16}),
-    SubCheck("grid_symmetries", check_sym, strategy=strat_sym, examples={"quick": 400, "thorough": 2500}, shards={"quick": 4, "thorough": 16}),
+    SubCheck("rows_vs_1d", check_rows, strategy=strat_rows, examples={"quick": 800, "thorough": 2500}, shards={"quick": 4, "thorough": 16}),
+    SubCheck("grid_symmetries", check_sym, strategy=strat_sym, examples={"quick": 1000, "thorough": 2500}, shards={"quick": 4, "thorough": 16}),
 ]
 
 META = dict(
